@@ -106,6 +106,19 @@ pub fn c01(opts: &Opts) -> Report {
                     }
                 }
             }
+            // left to right (C01_prefix_then_suffix): a leading run of string-to-string operations can be run first, as a
+            // pipeline of its own, and the rest run on its output; both routes through the public API give the same result
+            let k = ops.iter().take_while(|o| matches!(o, Op::Upper | Op::Lower | Op::Trim(..) | Op::Substring(..) | Op::Append(..) | Op::Prepend(..) | Op::Surround(..) | Op::StripAnsi | Op::Pad(..) | Op::RegexExtract(..) | Op::Replace(..))).count();
+            if k >= 1 && k < ops.len() && !shorthand && input.len() < 4_000 {
+                let (ta, tb) = (format!("{{{}}}", print_ops(&ops[..k])), format!("{{{}}}", print_ops(&ops[k..])));
+                let two_step = match real::parse_format(&ta, &input) { Out::Ok(mid) => real::parse_format(&tb, &mid), other => other };
+                ctx.rep.bump("prefix_then_suffix_routes");
+                if two_step != t.real {
+                    viol(ctx, format!("C01: {} on {:?} = {} but {} and then {} on its output = {}", t.text, input, t.real.show(), ta, tb, two_step.show()),
+                         vec![("template", t.text.clone()), ("prefix_template", ta), ("suffix_template", tb), ("input", input.clone()), ("observed", t.real.show()), ("expected", two_step.show()), ("theorem", "C01_prefix_then_suffix".into())]);
+                    return;
+                }
+            }
             judge(ctx, "C01", &t, &ops, &input, "C01_refines");
         })
 }
